@@ -120,8 +120,21 @@ func (e *Eval) compile(node ast.Node) error {
 		}
 
 		// sort them
+		//
+		// Keys which look the same (1 and "1", or one key given
+		// twice) are ordered by their kind, and then by their value,
+		// so that the code we generate never depends upon the order
+		// in which the map happened to hand them to us.
 		sort.Slice(keys, func(i, j int) bool {
-			return keys[i].String() < keys[j].String()
+			a, b := keys[i], keys[j]
+			if a.String() != b.String() {
+				return a.String() < b.String()
+			}
+			ta, tb := fmt.Sprintf("%T", a), fmt.Sprintf("%T", b)
+			if ta != tb {
+				return ta < tb
+			}
+			return node.Pairs[a].String() < node.Pairs[b].String()
 		})
 
 		// for each key + value compile them
